@@ -176,11 +176,11 @@ func boundaryHistories(c *core.Ctx) []*history {
 	var hs []*history
 	for _, name := range codecNames(true) {
 		small := smallBounds
-		if c.Tier != "quick" {
+		if !c.Quick() {
 			small = append(append([]int(nil), smallBounds...), midBounds...)
 		}
-		hs = append(hs, boundaryHistory(c, name, small, c.Tier != "quick"))
-		if c.Tier != "quick" {
+		hs = append(hs, boundaryHistory(c, name, small, !c.Quick()))
+		if !c.Quick() {
 			for _, b := range bigBounds {
 				hs = append(hs, boundaryHistory(c, name, []int{b}, true))
 			}
@@ -260,8 +260,11 @@ func shrink(h *history, f failure, budget int) (*history, failure) {
 			return nil
 		}
 		budget--
-		if f.Class == "hang" && h.Codec != "magic" {
-			t.DeadlineS = 5 // the inputs of a history are small enough for any call to end within 5 s
+		if t.DeadlineS == 0 {
+			t.DeadlineS = h.DeadlineS
+		}
+		if f.Class == "hang" && h.Codec != "magic" && h.DeadlineS == 0 {
+			t.DeadlineS = 5 // the inputs of such a history are small enough for any call to end within 5 s
 		}
 		fs, _ := outcomeOf(t)
 		return hasClass(fs, f.Class)
@@ -362,7 +365,7 @@ func report(c *core.Ctx, h *history, fs []failure) {
 			continue
 		}
 		reported[f.Class] = true
-		budget := 40
+		budget := 64
 		if f.Class == "hang" || f.Class == "unbounded-allocation" || strings.HasPrefix(f.Class, "alloc-declared-size") || f.Class == "child-died" {
 			budget = 10 // every attempt costs a child that has to die
 		}
@@ -394,6 +397,7 @@ func record(c *core.Ctx, h *history, res *execResult) {
 
 func runC20(c *core.Ctx) {
 	c.Res.Rule = "histories of calls on each codec value exported by package parquet (Uncompressed, Snappy, Gzip, Brotli, Zstd, Lz4Raw: shared, pooled) and on a test codec run through the real compress.Compressor/Decompressor: round trips of generated inputs (empty, 1 B, random, repetitive, text-like, zero, ramp, mixed; sizes up to 64 KiB quick / 4 MiB thorough) with dst nil / zero-cap / small / large pre-filled with garbage / exact / aliasing an earlier output, interleaved with failing decodes (truncated and bit-flipped valid streams, valid streams followed by trailing bytes, random garbage, gzip and zstd headers followed by garbage, length bombs, empty) and GC cycles, sequentially and from 8-32 goroutines at once. A case is one call (or call pair) of a history; non-trivial = non-empty input or a failing decode; distinct by codec + JSON of the call."
+	quickTier = c.Quick()
 	maxSize := c.N(64<<10, 4<<20)
 	hostileMax := c.N(16<<10, 128<<10)
 
@@ -424,6 +428,27 @@ func runC20(c *core.Ctx) {
 			hs = append(hs, h)
 		}
 	}
+	// every level of the codec types: the same kinds of histories on one value per level
+	for _, name := range codecNames(true) {
+		if !strings.Contains(name, "@") {
+			continue
+		}
+		for k := 0; k < c.N(2, 8); k++ {
+			ms := 8 << 10
+			if k%2 == 1 {
+				ms = maxSize
+			}
+			if strings.HasPrefix(name, "brotli@11") && ms > 256<<10 {
+				ms = 256 << 10 // seconds per MiB
+			}
+			hs = append(hs, genHistory(c, name, 10+c.Rng.Intn(15), ms, hostileMax, 30))
+		}
+		h := genHistory(c, name, 6+c.Rng.Intn(6), 16<<10, 4096, 30)
+		h.Goroutines = []int{8, 16}[c.Rng.Intn(2)]
+		hs = append(hs, h)
+	}
+	// sizes at the thresholds of the formats, every codec value and level
+	hs = append(hs, boundaryHistories(c)...)
 	// streams whose header announces a large decoded size.  Within the format's own limit (snappy < 4 GiB,
 	// zstd <= MaxInt32) the codec may allocate it and must return an error (recorded as a note); beyond it
 	// the stream must be refused without allocating (zstd: 60 GiB declared by 17 bytes)
@@ -570,12 +595,13 @@ func fileCheck(c *core.Ctx, fs *fileSpec) {
 }
 
 func fileRoundTrips(c *core.Ctx) {
-	for _, ci := range codecs() {
-		if ci.name == "magic" {
-			continue
+	for _, name := range codecNames(true) {
+		n := c.N(4, 16)
+		if strings.Contains(name, "@") {
+			n = c.N(1, 4)
 		}
-		for k := 0; k < c.N(4, 16); k++ {
-			fileCheck(c, &fileSpec{File: true, Codec: ci.name, Rows: 1 + c.Rng.Intn(c.N(2000, 20000)), Seed: int64(c.Rng.Intn(1 << 30)),
+		for k := 0; k < n; k++ {
+			fileCheck(c, &fileSpec{File: true, Codec: name, Rows: 1 + c.Rng.Intn(c.N(2000, 20000)), Seed: int64(c.Rng.Intn(1 << 30)),
 				PageBuf: 256 + c.Rng.Intn(8192), Version: 1 + k%2})
 		}
 	}
